@@ -588,16 +588,30 @@ func scribble(b []byte) {
 // verified, logged) after later calls on the same primitive, in a different order. Both the copy taken at
 // return and the retained slice's content at the time of use are logged; the reference judges the latter.
 func (pk *pubKey) retained(r *rand.Rand, pre tink.Prehash, ps tink.PrehashSigner) {
-	const n = 3
-	buf := make([]byte, 0, 2048)
-	msgs := make([][]byte, n)
+	msgs := make([][]byte, 3)
 	for i := range msgs {
 		msgs[i] = msgOf(r, i+2)
 		if len(msgs[i]) == 0 {
 			msgs[i] = []byte{byte(i)}
 		}
 	}
-	order := []int{2, 0, 1}
+	pk.retainedMsgs(msgs, pre, ps)
+}
+
+func (pk *pubKey) retainedMsgs(msgs [][]byte, pre tink.Prehash, ps tink.PrehashSigner) {
+	n := len(msgs)
+	buf := make([]byte, 0, 4096)
+	all := make([]string, n) // the whole scenario travels with every event (replay re-runs it)
+	for i := range msgs {
+		all[i] = vt.Hex(msgs[i])
+	}
+	order := []int{2, 0, 1}[:n]
+	if n != 3 {
+		order = nil
+		for i := n - 1; i >= 0; i-- {
+			order = append(order, i)
+		}
+	}
 	// ---- ordinary signer: sign all, then verify all
 	sigs, sigs0 := make([][]byte, n), make([][]byte, n)
 	fail := make([]vt.Ev, n)
@@ -615,7 +629,8 @@ func (pk *pubKey) retained(r *rand.Rand, pre tink.Prehash, ps tink.PrehashSigner
 	for _, i := range order {
 		e := pk.ev("signed")
 		e["seed"], e["keyVariant"] = vt.Hex(pk.seed), pk.variant
-		e["kind"], e["msg"], e["sig"], e["sig0"] = "retained", vt.Hex(msgs[i]), vt.Hex(sigs[i]), vt.Hex(sigs0[i])
+		e["keyID"] = vt.ID4(pk.id)
+		e["kind"], e["msg"], e["sig"], e["sig0"], e["msgs"] = "retained", vt.Hex(msgs[i]), vt.Hex(sigs[i]), vt.Hex(sigs0[i]), all
 		e["err"], e["panic"], e["hung"] = fail[i]["err"], fail[i]["panic"], fail[i]["hung"]
 		pk.out.Emit(e)
 		if sigs[i] != nil {
@@ -642,6 +657,7 @@ func (pk *pubKey) retained(r *rand.Rand, pre tink.Prehash, ps tink.PrehashSigner
 	}
 	for i := range msgs {
 		e := pk.ev("prehash")
+		e["seed"], e["keyVariant"], e["keyID"], e["msgs"] = vt.Hex(pk.seed), pk.variant, vt.ID4(pk.id), all
 		e["kind"], e["msg"], e["out"], e["out2"], e["err"], e["panic"] = "retained", vt.Hex(msgs[i]), vt.Hex(digs0[i]), vt.Hex(digs[i]), fail[i]["err"], fail[i]["panic"]
 		pk.out.Emit(e)
 	}
@@ -664,10 +680,11 @@ func (pk *pubKey) retained(r *rand.Rand, pre tink.Prehash, ps tink.PrehashSigner
 		}
 		e := pk.ev("signed")
 		e["seed"], e["keyVariant"] = vt.Hex(pk.seed), pk.variant
+		e["keyID"] = vt.ID4(pk.id)
 		if pk.variant == "TINK" { // SignPrehash returns the bare ML-DSA signature
 			e["variant"], e["id"] = "NO_PREFIX", "00000000"
 		}
-		e["kind"], e["msg"], e["sig"], e["sig0"] = "prehash-retained", vt.Hex(msgs[i]), vt.Hex(psigs[i]), vt.Hex(psigs0[i])
+		e["kind"], e["msg"], e["sig"], e["sig0"], e["msgs"] = "prehash-retained", vt.Hex(msgs[i]), vt.Hex(psigs[i]), vt.Hex(psigs0[i]), all
 		e["err"], e["panic"], e["hung"] = fail[i]["err"], fail[i]["panic"], fail[i]["hung"]
 		pk.out.Emit(e)
 		if psigs[i] != nil {
